@@ -69,10 +69,19 @@ def visible(kind, tag):
     return b"404:" + tag
 
 
+ACCEPTED = set()      # request ids for which some scripted handler has already accepted
+
+
 def _spec(index, name):
     rid = rid_of(name)
     hs = SCRIPTS.get(rid)
-    if hs is None or index >= len(hs):
+    if hs is None:
+        return None, None
+    if index >= len(hs):
+        # handler objects beyond the scripted list reject silently - unless somebody has accepted already:
+        # then nobody may be asked any more, and the call is put on record
+        if rid in ACCEPTED and rid in LOGS:
+            LOGS[rid].append(("prepare", index, name))
         return None, None
     return rid, hs[index]
 
@@ -93,6 +102,8 @@ class RecTftp(TS.TftpRequestHandler):
         if h is None:
             return False
         LOGS[rid].append(("can", self.index, filename, _ctx(context)))
+        if h[1]:
+            ACCEPTED.add(rid)
         return h[1]
 
     def handle(self, filename, client_address, server_address, context):
@@ -118,6 +129,8 @@ class RecHttp(HS.HttpRequestHandler):
         if h is None:
             return False
         LOGS[rid].append(("can", self.index, uri, _ctx(context)))
+        if h[1]:
+            ACCEPTED.add(rid)
         return h[1]
 
     def handle(self, request_info, body, context):
@@ -155,7 +168,11 @@ _tmp = None
 TFTP_TPL = ("client={{ request_info.client_address|join(',') }}\nserver={{ request_info.server_address|join(',') }}\n"
             "uri={{ request_info.uri }}\nkeys={{ request_info.keys()|sort|join(',') }}\n")
 HTTP_TPL = (TFTP_TPL + "method={{ request_info.method }}\n"
-            "{% for k, v in request_info.headers.items() %}hdr={{ k }}={{ v }}\n{% endfor %}")
+            "{% for k, v in request_info.headers.items() %}hdr={{ k }}={{ v }}\n{% endfor %}"
+            # the headers object must still be the server's HTTPMessage: case-insensitive lookup, repeated lines, type
+            "ci={{ request_info.headers['x-vERIF-id'] }}\n"
+            "all={{ (request_info.headers.get_all('X-Rep') or [])|join('+') }}\n"
+            "htype={{ request_info.headers.__class__.__name__ }}\n")
 
 
 def _tmpdir():
@@ -170,8 +187,9 @@ def _tmpdir():
     return _tmp
 
 
-def tftp_server(bind, pktinfo, filemode=False):
-    key = (bind, pktinfo, filemode)
+def tftp_server(bind, pktinfo, filemode=False, restart=None):
+    """restart: None = shared instance; "first" = dedicated instance; "restart" = stop() and start() that instance"""
+    key = (bind, pktinfo, filemode, restart is not None)
     if key not in _tftp:
         if filemode:
             hs = [FH.TftpFileRequestHandler({"request_path": "/t", "root_dir": _tmpdir(), "template": "jinja"})]
@@ -185,12 +203,22 @@ def tftp_server(bind, pktinfo, filemode=False):
         if not pktinfo:
             s._have_pktinfo = False       # read by TftpServer._run on every iteration
             time.sleep(0.25)
+        elif restart is not None:
+            time.sleep(0.15)              # the receive loop has run at least once before the restart
+        _tftp[key] = (s, s._socket.getsockname())
+    if restart == "restart":
+        s = _tftp[key][0]
+        s.stop()
+        s.start()                         # same object, bind_port=0: a new ephemeral port
+        if not pktinfo:
+            s._have_pktinfo = False
+            time.sleep(0.25)
         _tftp[key] = (s, s._socket.getsockname())
     return _tftp[key]
 
 
-def http_server(bind, filemode=False):
-    key = (bind, filemode)
+def http_server(bind, filemode=False, restart=None):
+    key = (bind, filemode, restart is not None)
     if key not in _http:
         if filemode:
             hs = [FH.HttpFileRequestHandler({"request_path": "/t", "root_dir": _tmpdir(), "template": "jinja"})]
@@ -199,6 +227,11 @@ def http_server(bind, filemode=False):
         s = HS.HttpServer(hs, bind, 0)
         s.start()
         atexit.register(s.stop)
+        _http[key] = (s, s._server.socket.getsockname())
+    if restart == "restart":
+        s = _http[key][0]
+        s.stop()
+        s.start()
         _http[key] = (s, s._server.socket.getsockname())
     return _http[key]
 
@@ -214,7 +247,7 @@ def _patience():
 
 def tftp_request(c):
     """-> (reply, client port, bound sockname)"""
-    srv, sockname = tftp_server(c["bind"], c["pktinfo"], c["proto"] == 2)
+    srv, sockname = tftp_server(c["bind"], c["pktinfo"], c["proto"] == 2, c.get("restart"))
     fam = socket.AF_INET if c["fam"] == 4 else socket.AF_INET6
     dst = V4 if c["fam"] == 4 else V6
     s = socket.socket(fam, socket.SOCK_DGRAM)
@@ -241,7 +274,7 @@ def tftp_request(c):
 
 
 def http_request(c):
-    srv, sockname = http_server(c["bind"], c["proto"] == 3)
+    srv, sockname = http_server(c["bind"], c["proto"] == 3, c.get("restart"))
     fam = socket.AF_INET if c["fam"] == 4 else socket.AF_INET6
     dst = V4 if c["fam"] == 4 else V6
     s = socket.socket(fam, socket.SOCK_STREAM)
@@ -303,7 +336,8 @@ class C10(Check):
                     continue
                 yield bind, fam
 
-    def mk(self, proto, bind, fam, pktinfo, handlers, stem=b"", tail=b"", mail=False, method="GET", headers=None):
+    def mk(self, proto, bind, fam, pktinfo, handlers, stem=b"", tail=b"", mail=False, method="GET", headers=None,
+           restart=None, debug=False):
         rid = next(self._seq)
         token = b"id%dx" % rid
         if proto in (1, 3):
@@ -316,7 +350,7 @@ class C10(Check):
             name = b"/t/http.txt"
         hd = [("Host", "verif"), ("X-Verif-Id", str(rid))] + list(headers or [])
         return {"proto": proto, "bind": bind, "fam": fam, "pktinfo": pktinfo, "rid": rid, "name": name,
-                "mail": mail, "method": method, "headers": hd if proto in (1, 3) else [],
+                "mail": mail, "method": method, "headers": hd if proto in (1, 3) else [], "restart": restart, "debug": debug,
                 "handlers": [("h%d-%d" % (i, rid),) + ((bool(a[0]), a[1]) if isinstance(a, tuple) else (bool(a), "ok"))
                              for i, a in enumerate(handlers)]}
 
@@ -335,6 +369,25 @@ class C10(Check):
             for pk in (True, False):
                 for v in some:
                     yield self.mk(0, bind, fam, pk, v, stem=b"w/", tail=b"/x")
+        # the same dispatch with the server loggers at DEBUG (diagnostic code must not call or confuse handlers)
+        for v in vectors:
+            yield self.mk(0, "::", 6, True, v, stem=b"dbg/", tail=b"/x", debug=True)
+            yield self.mk(1, "::", 6, True, v, tail=b"/dbg?x=1", debug=True)
+        for v in some:
+            yield self.mk(0, "::", 4, False, v, stem=b"dbg/", debug=True)
+            yield self.mk(1, V6, 6, True, v, tail=b"/dbg", method="POST", debug=True)
+        # stop() and start() on ONE server object (bind_port=0: new port): the handler must see the new address
+        for bind, fam in (("::", 6), ("::", 4), (V6, 6)):
+            for pk in (True, False):
+                yield self.mk(0, bind, fam, pk, (False, True), stem=b"r1/", restart="first")
+                yield self.mk(0, bind, fam, pk, (False, True), stem=b"r2/", restart="restart")
+                yield self.mk(0, bind, fam, pk, (True,), stem=b"r3/", restart="restart")
+            yield self.mk(1, bind, fam, True, (False, True), tail=b"/r1", restart="first")
+            yield self.mk(1, bind, fam, True, (False, True), tail=b"/r2", restart="restart")
+        yield self.mk(2, "::", 6, True, (True,), restart="first")
+        yield self.mk(2, "::", 6, True, (True,), restart="restart")
+        yield self.mk(3, "::", 6, True, (True,), restart="first")
+        yield self.mk(3, "::", 6, True, (True,), restart="restart", headers=[("X-Rep", "1"), ("x-rep", "2")])
         # what handle() returns must not let a later handler be asked (HTTP): result kinds x later accepting handlers
         for kind in RESULT_KINDS:
             for later in ([], [(True, "ok")], [(False, "ok"), (True, "ok")], [(True, "bare404"), (True, "ok")]):
@@ -367,6 +420,8 @@ class C10(Check):
                 for st in (b"", b"/"):
                     yield self.mk(2, bind, fam, pk, (True,), stem=st)
             yield self.mk(3, bind, fam, True, (True,), headers=[("X-Verif", "v=1; w")])
+            yield self.mk(3, bind, fam, True, (True,), headers=[("X-Rep", "one"), ("X-Other", "o"), ("x-rep", "two"), ("X-REP", "three")])
+            yield self.mk(3, bind, fam, True, (True,), headers=[("X-Rep", "only")], debug=True)
         # random
         n = 150 if tier == "quick" else 2500
         alphabet = b"abcXYZ019/%.-_~ +?&=\xe4\xff\\;"
@@ -391,12 +446,25 @@ class C10(Check):
     def impl(self, c):
         SCRIPTS[c["rid"]] = c["handlers"]
         LOGS[c["rid"]] = []
-        if c["proto"] in (0, 2):
-            reply, cport, sockname = tftp_request(c)
-        else:
-            reply, cport, sockname = http_request(c)
+        loggers = [logging.getLogger("vinegar.http.server"), logging.getLogger("vinegar.tftp.server")]
+        old = [lg.level for lg in loggers]
+        if c.get("debug"):                       # the logging level is configuration: the property holds at every level
+            for lg in loggers:
+                lg.setLevel(logging.DEBUG)
+        try:
+            if c["proto"] in (0, 2):
+                reply, cport, sockname = tftp_request(c)
+            else:
+                reply, cport, sockname = http_request(c)
+            if c.get("debug"):
+                time.sleep(0.01)
+        finally:
+            for lg, lv in zip(loggers, old):
+                lg.setLevel(lv)
         return {"reply": reply, "cport": cport, "sockname": sockname, "rid": c["rid"], "proto": c["proto"],
-                "tags": [h[0] for h in c["handlers"]]}
+                "tags": [h[0] for h in c["handlers"]],
+                "expect_hdr": {"ci": str(c["rid"]), "all": "+".join(v for k, v in c["headers"] if k.lower() == "x-rep"),
+                               "htype": "HTTPMessage"}}
 
     def evaluate(self, cases):
         obs = [self.impl(c) for c in cases]
@@ -404,6 +472,7 @@ class C10(Check):
         for o in obs:
             o["log"] = list(LOGS.pop(o["rid"], []))
             SCRIPTS.pop(o["rid"], None)
+            ACCEPTED.discard(o["rid"])
         lines = [self.line(c, o) for c, o in zip(cases, obs)]
         outs = run_model(self.ident, lines)
         res = []
@@ -492,6 +561,9 @@ class C10(Check):
             return [[b"keys", [1, kv.get("keys", "").encode()]]]
         out = [[b"client_address", addr(kv.get("client", ""), False)]]
         if o["proto"] == 3:
+            for k, want_v in o.get("expect_hdr", {}).items():
+                if kv.get(k, "<missing>") != want_v:
+                    hdrs.append([b"!headers-object", ("%s: got %r, HTTPMessage gives %r" % (k, kv.get(k), want_v)).encode("latin-1", "replace")])
             out.append([b"headers", [2, hdrs]])
             out.append([b"method", [1, kv.get("method", "").encode()]])
         out.append([b"server_address", addr(kv.get("server", ""), True)])
@@ -526,6 +598,7 @@ class C10(Check):
         return {"proto": ["tftp", "http", "tftp+file-handler", "http+file-handler"][c["proto"]], "bind": c["bind"],
                 "client_family": "IPv%d" % c["fam"], "pktinfo": c["pktinfo"], "name": c["name"].decode("latin-1"),
                 "mail_mode": c["mail"], "method": c["method"], "headers": c["headers"],
+                "server_loggers_at_DEBUG": bool(c.get("debug")), "restart": c.get("restart"),
                 "handlers(tag,accepts,result)": c["handlers"]}
 
     def renamed(self, c, **kw):
